@@ -15,6 +15,7 @@
 package httpcaddyfile
 
 import (
+	"encoding/json"
 	"fmt"
 	"html"
 	"net/http"
@@ -848,7 +849,20 @@ func parseHandleErrors(h Helper) ([]ConfigValue, error) {
 			"expression": h.JSON(caddyhttp.MatchExpression{Expr: expression}),
 		}
 		for i := range subroute.Routes {
-			subroute.Routes[i].MatcherSetsRaw = []caddy.ModuleMap{statusMatcher}
+			if len(subroute.Routes[i].MatcherSetsRaw) == 0 {
+				subroute.Routes[i].MatcherSetsRaw = []caddy.ModuleMap{statusMatcher}
+				continue
+			}
+			// the route has matchers of its own (e.g. `respond /path ...`);
+			// keep them: test the status first, then evaluate the route
+			// as it is inside a subroute
+			inner := &caddyhttp.Subroute{Routes: caddyhttp.RouteList{subroute.Routes[i]}}
+			subroute.Routes[i] = caddyhttp.Route{
+				MatcherSetsRaw: []caddy.ModuleMap{statusMatcher},
+				HandlersRaw: []json.RawMessage{
+					caddyconfig.JSONModuleObject(inner, "handler", "subroute", h.warnings),
+				},
+			}
 		}
 	}
 	return []ConfigValue{
